@@ -43,6 +43,18 @@ CHECKS = {
         text="Early-stopped diagrams completed with skip nodes are queried for seeds over all nodes in six orders on fresh copies; every reference attractor must be reported (exactly once without motif-avoidant attractors), every seed must be sound; the avoid lists actually passed to the solver are explained against the documented pruning rule.",
         ref="7 C05",
     ),
+    "C06": dict(
+        cat="exploration",
+        tech="runtime monitoring: explicit simulation of the overridden network (reachable attractors) + reference LDOI as oracle over every override of every successful intervention",
+        text="Every override of every successful intervention (both strategies, bounds, forbidden sets, skip_feedforward on/off; fresh, partially expanded, shortcut and skip-completed diagrams) is simulated in the reference model: all attractors reachable from the previous trap space under the override must carry the motif; the chain of trap spaces and the final space are checked against the target.",
+        ref="7 C06",
+    ),
+    "C07": dict(
+        cat="exploration",
+        tech="runtime monitoring: executable reference of the documented control output (paths x motif choices on the reference diagram, minimal driver variable sets by reference LDOI) compared with the real output",
+        text="successions_to_target and the per-step override lists are compared exactly (multisets) with the reference definitions on fresh diagrams, over targets, strategies, bounds, forbidden sets and successful_only.",
+        ref="7 C07",
+    ),
     "C08": dict(
         cat="exploration",
         tech="runtime monitoring: reference-model oracle on node_attractor_candidates under a sweep of option pairs and configuration values; solver wrapper labels the branch taken",
@@ -84,6 +96,42 @@ CHECKS = {
         tech="runtime monitoring: sys.monitoring back-edge work meter with budget + while-loop frame-fingerprint no-progress detector on random call histories",
         text="Every public call of random histories (all strategies, attractor queries on expanded/unexpanded/skipped nodes, skipping, control, extreme configurations) runs under a loop back-edge budget B(n, nodes) and a no-progress detector; max observed work/budget ratio is reported per operation kind.",
         ref="7 C13",
+    ),
+    "C15": dict(
+        cat="fault_enumeration",
+        tech="runtime monitoring with fault enumeration: every size/level limit value, configured resource limits, and an injected solver failure (clingo Control subclass) at every solver call index; invariants + reference oracle after the stop, resume compared with an uninterrupted twin",
+        text="For each resumable operation every limit value and every solver-call fault point of the enumerated networks is exercised; after each stop the partial-diagram invariants and cached attractor data are judged against the reference, False=>stubs-remain and True=>contract are asserted, and the resumed result is compared with an uninterrupted twin.",
+        ref="7 C15",
+    ),
+    "C16": dict(
+        cat="exploration",
+        tech="runtime monitoring: twin-run differential (untouched vs pickle round trip / reclaim inserted at a cut point) over random full-API histories, comparing return values and id-level dumps after every later call",
+        text="A pickle round trip and/or reclaim_node_data inserted at random (thorough: every) cut points of random histories must leave every later return value and the complete id-level dump identical to the untouched twin.",
+        ref="7 C16",
+    ),
+    "C17": dict(
+        cat="exploration",
+        tech="runtime monitoring: metamorphic differential (renaming, reordering, equivalent formulas, negated encoding, bnet/aeon/sbml, name sanitising) with the transformation itself validated on the reference model",
+        text="Diagrams, minimal trap spaces and attractor sets of transformed networks, mapped back through the transformation, must equal those of the original; sanitised names must be solver-safe, distinct and semantics-preserving.",
+        ref="7 C17",
+    ),
+    "C18": dict(
+        cat="exploration",
+        tech="runtime monitoring: compositional differential (products for disjoint unions, input-conditioned sub-diagrams for every source valuation) + second-implementation oracle (explicit model / AEON symbolic attractors) on repository models",
+        text="Unions are compared with products of the parts' reference results, every source valuation's fixed network with the sub-diagram below its node, and build() seeds on repository models with an independent attractor computation.",
+        ref="7 C18",
+    ),
+    "C19": dict(
+        cat="exploration",
+        tech="runtime monitoring: byte-level comparison of id-level dumps, summaries and intervention reprs across repeated in-process runs, fresh processes with 5 PYTHONHASHSEED values and runs after a pollution prefix",
+        text="The complete observable output of 8 strategies + seeds + both control strategies per network is compared byte for byte between two computations in one process, five processes with different hash seeds and two processes that first run unrelated diagrams.",
+        ref="7 C19",
+    ),
+    "C20": dict(
+        cat="exploration",
+        tech="runtime monitoring: after-every-call invariant (networkx longest path vs reported depth, id contiguity, find_node oracle), inclusion oracle for is_subgraph/is_isomorphic, parsed summary() vs reference attractors and minimal trap spaces",
+        text="Depth, ids, len, find_node are checked after every call of random histories that rediscover nodes through longer paths; is_subgraph/is_isomorphic are compared with node/edge-set inclusion; the summary after build() must list every reference attractor once with the right label.",
+        ref="7 C20",
     ),
 }
 
